@@ -527,6 +527,7 @@ func prioRunCase(st *prioStruct, c *prioCase) (obs prioObs, b64 string, doc stri
 		}
 	}()
 	ptr := reflect.New(st.Type)
+	prioPrefill(ptr.Elem())
 	fs, err := config.NewFlagSet(ptr.Interface())
 	if err != nil {
 		obs.Err, obs.Class = err, "newflagset"
@@ -788,6 +789,7 @@ func prioRun(cfg Cfg) {
 			pt(f.Kind, f.Def)
 		}
 		ptr := reflect.New(st.Type)
+		prioPrefill(ptr.Elem())
 		fs, err := config.NewFlagSet(ptr.Interface())
 		wantClass, wantArg := st.newErr()
 		op := "newfs " + prioFieldTokens(st.Fields)
@@ -1060,4 +1062,44 @@ func prioRun(cfg Cfg) {
 		}
 	}
 	s.Traces = s.Evaluations
+}
+
+var prioPrefillSeq int
+
+// prioPrefill: every other struct handed to NewFlagSet is not fresh but already holds non-zero
+// values (a reused or pre-populated config struct). NewFlagSet must overwrite every field with its
+// tag default - the zero value when the tag has none - so the starting content must not matter.
+func prioPrefill(v reflect.Value) {
+	prioPrefillSeq++
+	if prioPrefillSeq%2 == 0 {
+		return
+	}
+	prioPrefillRec(v)
+}
+
+func prioPrefillRec(v reflect.Value) {
+	for i := 0; i < v.NumField(); i++ {
+		f := v.Field(i)
+		if !f.CanSet() {
+			continue
+		}
+		switch f.Kind() {
+		case reflect.Struct:
+			prioPrefillRec(f)
+		case reflect.Bool:
+			f.SetBool(true)
+		case reflect.Int, reflect.Int64:
+			f.SetInt(7777)
+		case reflect.Uint, reflect.Uint64:
+			f.SetUint(7777)
+		case reflect.String:
+			f.SetString("prefilled")
+		case reflect.Float64:
+			f.SetFloat(77.5)
+		case reflect.Slice:
+			if f.Type().Elem().Kind() == reflect.Uint8 {
+				f.SetBytes([]byte("prefilled"))
+			}
+		}
+	}
 }
